@@ -33,6 +33,8 @@ def file_loop(ctx, p):
 
 def run(ctx, col, tier):
     repo = ctx.repo
+    from ..rules import endpoints as _endpoints
+    _endpoints.run(ctx, col, ('swcgeom.core.tree', 'swcgeom.core.path', 'swcgeom.core.branch', 'swcgeom.core.node', 'swcgeom.core.tree_utils', 'swcgeom.core.tree_utils_impl', 'swcgeom.core.swc_utils.base', 'swcgeom.core.swc_utils.subtree', 'swcgeom.core.swc_utils.normalizer', 'swcgeom.core.swc_utils.io'))
     col.rule("R-EXC", "every error raised while reading propagates to the API boundary: no "
              "enclosing context manager can suppress it, every handler that catches it re-raises "
              "on all paths", floor=3)
